@@ -380,6 +380,66 @@ class StopHistory(Exception):
     """raised by an observer to end a history after the requested number of steps"""
 
 
+class FakeClock:
+    """A clock owned by the harness, put in place of the `time` module that sparseSpACE.spatiallyAdaptiveBase reads for its
+    documented `max_time` stopping rule: every reading advances the clock by the next value of a tick tape (cyclic), so the
+    moment at which the time budget runs out - before an evaluation, between evaluation and refinement, inside a refinement
+    step - is a pure function of the case dict.  model "same": time() and perf_counter() share their origin; model "epoch":
+    time() is ahead of perf_counter() by 1.7e9 s as on a real machine."""
+
+    def __init__(self, ticks, model="same"):
+        import time as _t
+        self._real = _t
+        self.ticks = [float(x) for x in ticks] or [1.0]
+        self.pos = 0
+        self.now = 0.0
+        self.offset = 1.7e9 if model == "epoch" else 0.0
+        self.readings = 0
+
+    def _adv(self):
+        self.now += self.ticks[self.pos % len(self.ticks)]
+        self.pos += 1
+        self.readings += 1
+        return self.now
+
+    def time(self):
+        return self._adv() + self.offset
+
+    def perf_counter(self):
+        return self._adv()
+
+    def process_time(self):
+        return self._adv()
+
+    def monotonic(self):
+        return self._adv()
+
+    def time_ns(self):
+        return int((self._adv() + self.offset) * 1e9)
+
+    def perf_counter_ns(self):
+        return int(self._adv() * 1e9)
+
+    def __getattr__(self, name):
+        return getattr(self._real, name)
+
+
+@contextlib.contextmanager
+def harness_clock(clock):
+    """installs a FakeClock as the `time` global of sparseSpACE.spatiallyAdaptiveBase for the duration of the block"""
+    if clock is None:
+        yield None
+        return
+    import sparseSpACE.spatiallyAdaptiveBase as sab
+    old = sab.time
+    fc = FakeClock(clock["ticks"], clock.get("model", "same"))
+    sab.time = fc
+    try:
+        yield fc
+    finally:
+        sab.time = old
+
+
 def run_history(sa, case, on_eval=None, before_refine=None, after_refine=None, clean_stop=False, **kw):
     """Runs performSpatiallyAdaptiv with tol=-1 until max_evaluations or maxsteps refinement steps.
 
@@ -413,8 +473,13 @@ def run_history(sa, case, on_eval=None, before_refine=None, after_refine=None, c
     sa.refine = rf
     res = None
     legs = None if clean_stop else case.get("legs")
+    clock = case.get("clock") if clean_stop else None
+    if clock:
+        kw = dict(kw, max_time=float(clock["max_time"]))
     try:
-        with quiet():
+        with quiet(), harness_clock(clock) as fc:
+            if fc is not None:
+                state["clock"] = fc
             if legs:
                 # the history is cut into several runs: the first one stops right after the initial evaluation, every
                 # further leg is a continue_adaptive_refinement with a slightly larger point limit (run boundaries)
